@@ -51,7 +51,7 @@ inline RunCfg decompress_cfg(Rng &rng, int W, bool knobs, size_t in_bytes, size_
   c.in_frag = random_frag(rng);
   if (rng.below(3) == 0) c.out_frag = random_frag(rng);
   if (knobs) {
-    static const size_t ig[] = {0, 0, 4, 4, 8, 12, 16, 20, 32, 64, 100, 256, 1024, 4096, 65536};
+    static const size_t ig[] = {0, 0, 4, 4, 8, 12, 16, 20, 32, 64, 100, 128, 128, 132, 256, 256, 512, 1024, 4096, 65536};
     c.in_granul = ig[rng.below(sizeof ig / sizeof *ig)];
     // keep the number of input blocks bounded
     while (c.in_granul && in_bytes / c.in_granul > 20000) c.in_granul *= 4;
